@@ -170,6 +170,7 @@ static Case gen_c01()
 {
   Case c;
   GenOpts o;
+  o.max_len = 12288;
   gen_enc(c, o);
   return c;
 }
